@@ -574,12 +574,17 @@ type replay struct {
 	// kind apps: several applications in one run
 	Apps  []appVersions `json:"apps,omitempty"`
 	Names []string      `json:"names,omitempty"` // --app-names, in order
+	// kind outdir: runs into one output directory
+	Steps []odStep `json:"steps,omitempty"`
+	Pre   int      `json:"pre,omitempty"` // lines of a file left in the directory before the first run
+	Bin   bool     `json:"bin,omitempty"` // through the real binary
 }
 
 type runner struct {
 	c   *common.Ctx
 	cs  *common.Cases
 	acs *common.Cases // cases of the several-applications stream
+	fcs *common.Cases // cases of the output-directory stream
 	// generation only queues the cases; flush compiles all versions with the real parser on several goroutines
 	// (the results do not depend on the schedule) and then judges / prints the cases in generation order
 	collect bool
@@ -742,6 +747,7 @@ func (r *runner) runNow(kind string, models []*Model, note string) {
 		var dstmts []stmt
 		var next *version
 		var cat1 *catalog
+		sound := true // the oracle's verdict on (v, next), handed to Coq: see c16_ok clause 4
 		if i+1 < len(vs) {
 			next = vs[i+1]
 			dsql, pan := realDelta(v.mod, next.mod)
@@ -774,10 +780,13 @@ func (r *runner) runNow(kind string, models []*Model, note string) {
 				cat1, derr = execAll(cat0.clone(), dstmts)
 				if !judgeDelta(c, v.m, next.m, dstmts, cat0, cat1, derr, rp, "delta") {
 					chainOK = false
+					sound = false
 				}
 			} else {
 				chainOK = false
+				sound = false
 			}
+			c.Hist("scope:" + scopeOf(v.m, next.m))
 			for _, k := range editKinds(v.m, next.m) {
 				c.Hist("edit:" + k)
 			}
@@ -822,7 +831,7 @@ func (r *runner) runNow(kind string, models []*Model, note string) {
 		for k := range dstmts {
 			texts = append(texts, gPieces(dstmts[k].Pieces, nm))
 		}
-		term := fmt.Sprintf("Case %s %s %s %s %s %s", gModel(v.proj, nm), newG, gStmts(cstmts, nm), scriptG, gCatalog(final, nm), common.GList(texts))
+		term := fmt.Sprintf("Case %s %s %s %s %s %s %v", gModel(v.proj, nm), newG, gStmts(cstmts, nm), scriptG, gCatalog(final, nm), common.GList(texts), sound)
 		sub := replay{Kind: "create", Versions: []*Model{v.m}}
 		if next != nil {
 			sub = replay{Kind: "delta", Versions: []*Model{v.m, next.m}}
@@ -894,6 +903,8 @@ Local Open Scope positive_scope.`
 	defer r.cs.Close()
 	r.acs = c.NewCases("C16apps", header, "c16_apps_case", `Definition M := Eval vm_compute in mismatches c16_apps_ok cases. Print M.`, 120)
 	defer r.acs.Close()
+	r.fcs = c.NewCases("C16files", header, "c16_files_case", `Definition M := Eval vm_compute in mismatches c16_files_ok cases. Print M.`, 120)
+	defer r.fcs.Close()
 
 	if c.Replay != "" {
 		var rp replay
@@ -904,6 +915,26 @@ Local Open Scope positive_scope.`
 		if rp.Kind == "apps" {
 			r.runApps(rp.Apps, rp.Names)
 			fmt.Printf("replay apps: failures=%d\n", len(c.Res.Failures))
+			for _, f := range c.Res.Failures {
+				fmt.Println("  ", f.Key, "-", f.What)
+			}
+			return
+		}
+		if rp.Kind == "outdir" {
+			bin := ""
+			if rp.Bin {
+				bin = os.Getenv("VERIF_SYSL_BIN")
+			}
+			r.runOutdir(rp.Versions, rp.Steps, rp.Pre, bin, false)
+			fmt.Printf("replay outdir: failures=%d\n", len(c.Res.Failures))
+			for _, f := range c.Res.Failures {
+				fmt.Println("  ", f.Key, "-", f.What)
+			}
+			return
+		}
+		if rp.Kind == "idents" && len(rp.Versions) == 2 {
+			r.runIdents(rp.Versions[0], rp.Versions[1], rp.Note, false)
+			fmt.Printf("replay idents: failures=%d\n", len(c.Res.Failures))
 			for _, f := range c.Res.Failures {
 				fmt.Println("  ", f.Key, "-", f.What)
 			}
